@@ -1,4 +1,5 @@
 import SgVerif.C42.Race
+import SgVerif.C42.Decr
 /-
 C42 — Happens-before equals transitive dependency.  Property theorems (nothing else in this file).
 
@@ -148,6 +149,17 @@ theorem happens_before_process_spec (hsame : ∀ t1 t2 : T, aidOf t1 = aidOf t2 
       refine ⟨k, hk, ⟨hc.lt, (hb_of_inv hsame hinv e k).mpr hc⟩, ?_⟩
       rw [actorOf_eq_aidAt hinv]; exact ha
 
+/-- **the racing list is strictly decreasing** (hence duplicate-free, latest race first): for EVERY execution object (not
+only those built by `run`), every `max_threads` and every target.  The candidates are sorted with `std::greater` and
+`unique()`d (`raceCandidates_strict`) and the filtering loop keeps a sub-list in the same order (`raceLoop_sublist`).
+With `racing_events_exact` the returned list is THE descending enumeration of the races of `t`. -/
+theorem racing_events_strictly_decreasing (W : Nat) (ex : Execution T) (target : Nat) :
+    (getRacingEventsOf aidOf W ex target).Pairwise (fun a b => a > b) :=
+  getRacingEventsOf_strict W ex target
+
+theorem racing_events_nodup (W : Nat) (ex : Execution T) (target : Nat) : (getRacingEventsOf aidOf W ex target).Nodup :=
+  (racing_events_strictly_decreasing aidOf W ex target).imp (fun h => Nat.ne_of_gt h)
+
 end
 
 /-! ### non-vacuity: a concrete relation satisfying the hypotheses, with a transitive-only pair and a race -/
@@ -181,5 +193,10 @@ example : 2 ∈ getRacingEventsOf exAid 32 (run exAid exDep 32 exTs) 3 ∧
     have hr := (racing_events_exact exAid exDep exDep_same 32 exTs (by decide) 3 (by decide) 1).mp h
     apply hr.2.2
     exact ⟨2, Chain.single (by decide) ⟨_, _, rfl, rfl, rfl⟩, Chain.single (by decide) ⟨_, _, rfl, rfl, rfl⟩⟩
+
+-- `racing_events_strictly_decreasing` has no hypothesis; an instance, and the sort/unique step on a list with duplicates
+example : (getRacingEventsOf exAid 32 (run exAid exDep 32 exTs) 3).Pairwise (fun a b => a > b) :=
+  racing_events_strictly_decreasing exAid 32 _ 3
+example : uniqAdj [5, 5, 3, 3, 1] = [5, 3, 1] ∧ [5, 3, 1].Pairwise (fun a b => a > b) := by decide
 
 end SgVerif.C42
